@@ -27,6 +27,7 @@ import (
 	"path/filepath"
 	"sort"
 	"strings"
+	"syscall"
 	"time"
 
 	"github.com/opencontainers/go-digest"
@@ -281,7 +282,11 @@ func resolveRelToBase(baseAbs, baseRel, target string) (string, error) {
 	dir := filepath.Dir(path)
 	for dir != "." {
 		if info, err := os.Lstat(filepath.Join(baseAbs, dir)); err != nil {
-			if !os.IsNotExist(err) {
+			// A directory below a regular file (ENOTDIR) or with a name
+			// that is too long (ENAMETOOLONG) cannot exist either, so
+			// nothing there is a symbolic link: e.g. the target of a
+			// dangling link may well contain such elements.
+			if !os.IsNotExist(err) && !errors.Is(err, syscall.ENOTDIR) && !errors.Is(err, syscall.ENAMETOOLONG) {
 				return "", err
 			}
 		} else if info.Mode()&os.ModeSymlink != 0 {
